@@ -61,7 +61,7 @@ func RunHandlers(e *Env) {
 		"after the release the queued handler starts (hang rule), replies of released handlers reach the right call (token check); distinct = case parameters; non-trivial = >=2 scripts or >=2 clients"
 	R.Assume("the monitor's decrement precedes the unlock and its increment follows the server's lock acquisition, hence no false alarm on a correct server")
 	rng := e.Rand(4)
-	ncase := e.Pick(400, 8000)
+	ncase := e.Pick(400, 40000)
 	for i := 0; i < ncase; i++ {
 		if e.Of > 1 && i%e.Of != e.Batch {
 			continue
